@@ -738,7 +738,7 @@ func (x *Exec) convert(st *State, a *Val, from, to types.Type) (*Val, error) {
 func (x *Exec) bulkCopy(st *State, et types.Type, dRef, dLo, n, sRef, sLo *Term) {
 	for _, c := range flatten(et) {
 		name := elemPrefix(et) + c.suffix
-		m := x.heap(st, name, 2, c.sort)
+		m := x.heap(st, name, 2, c.hsort())
 		st.heaps[name] = m.Copy(dRef, dLo, n, m, sRef, sLo)
 	}
 }
@@ -861,7 +861,7 @@ func (x *Exec) makeSlice(st *State, in *ssa.MakeSlice) error {
 	}
 	lt := x.toInt64(l, in.Len.Type())
 	ct := x.toInt64(c, in.Cap.Type())
-	lim := tb.BV(64, 1<<48)
+	lim := tb.BV(64, 1<<sizeBits-1)
 	if x.ghost == 0 {
 		x.oblige(st, "safe", fmt.Sprintf("safe.make@%s", x.posStr(in.Pos())), in.Pos(),
 			tb.And(tb.Cmp("bvule", lt, ct), tb.Cmp("bvule", ct, lim)))
@@ -879,12 +879,12 @@ func (x *Exec) zeroElems(st *State, et types.Type, r *Term) {
 	tb := x.tb
 	for _, cp := range flatten(et) {
 		name := elemPrefix(et) + cp.suffix
-		m := x.heap(st, name, 2, cp.sort)
+		m := x.heap(st, name, 2, cp.hsort())
 		var z *Term
 		if cp.sort == 0 {
 			z = tb.False
 		} else {
-			z = tb.BV(cp.sort, 0)
+			z = tb.BV(cp.hsort(), 0)
 		}
 		st.heaps[name] = m.Havoc(func(key []*Term) *Term { return tb.Eq(key[0], r) }, constMem(name, z))
 	}
@@ -994,7 +994,7 @@ func (x *Exec) checkFrame(st *State, a *Addr, pos token.Pos) {
 		}
 		in := tb.Eq(a.keys[0], f.ref)
 		if f.lo != nil && len(a.keys) > 1 {
-			in = tb.And(in, tb.Cmp("bvule", f.lo, a.keys[1]), tb.Cmp("bvult", a.keys[1], f.hi))
+			in = tb.And(in, tb.Cmp("bvult", tb.Sub(a.keys[1], f.lo), tb.Sub(f.hi, f.lo)))
 		}
 		g = tb.Or(g, in)
 	}
